@@ -68,8 +68,112 @@ type thListener struct{ events int }
 
 func (l *thListener) WhenThrottled() { l.events++ }
 
+const bucketSecs, minSecs, refillSecs, fps = 2, 1, 6, 2 // capacity 4 frames, min clip 2 frames, 2 frames per 6 s
+
+// runThrottleSeq plays one history on a fresh ThrottledRecorder; "" = no violation.
+func runThrottleSeq(seq []byte) string {
+	base, lis, clk := &thBase{}, &thListener{}, &thClock{now: time.Unix(1000, 0)}
+	conf := &config.ThermalThrottler{Activate: true, BucketSize: bucketSecs * time.Second, MinRefill: refillSecs * time.Second}
+	tr := NewThrottledRecorderWithClock(base, conf, minSecs, lis, clk, thCam{})
+	bg := cptvframe.NewFrame(thCam{})
+	vopen := false // what the client (motion processor) believes
+	elapsed := 0.0
+	for k, o := range seq {
+		evBefore, filesBefore, writesBefore, wasOpen := lis.events, len(base.files), base.writes, base.open
+		what := ""
+		switch o {
+		case 's':
+			if vopen {
+				continue // the client never starts twice
+			}
+			err := tr.StartRecording(bg, 7)
+			if err == nil {
+				vopen = true
+			}
+			if base.open && len(base.files) == filesBefore+1 && base.bgs[len(base.bgs)-1] != bg {
+				what = "C06 start forwarded with a different background"
+			}
+			if !base.open && !base.failStart && err == nil && lis.events != evBefore+1 {
+				what = "C06 suppressed start without exactly one throttled event"
+			}
+			if base.open && lis.events != evBefore {
+				what = "C06 throttled event although the start was forwarded"
+			}
+		case 'w':
+			if !vopen {
+				continue
+			}
+			f := cptvframe.NewFrame(thCam{})
+			tr.WriteFrame(f)
+			if base.writes == writesBefore+1 {
+				cur := base.files[len(base.files)-1]
+				if cur[len(cur)-1] != f {
+					what = "C06 a different frame was forwarded"
+				}
+				if lis.events != evBefore {
+					what = "C06 throttled event although the frame was forwarded"
+				}
+			} else if wasOpen {
+				if base.open {
+					what = "C06 frame dropped but the file was left open"
+				}
+				if lis.events != evBefore+1 {
+					what = fmt.Sprintf("C06 cut produced %d throttled events, expected exactly 1", lis.events-evBefore)
+				}
+				if n := len(base.files[len(base.files)-1]); n < minSecs*fps {
+					what = fmt.Sprintf("C06 throttle-cut file holds %d frames, fewer than the minimum clip of %d", n, minSecs*fps)
+				}
+			} else {
+				if lis.events != evBefore {
+					what = "C06 throttled event for a dropped frame while no file is open"
+				}
+				if len(base.files) != filesBefore && base.writes == writesBefore && !base.failStart {
+					what = "C06 file restarted without writing the frame"
+				}
+			}
+			if len(base.files) == filesBefore+1 && base.bgs[len(base.bgs)-1] != bg {
+				what = "C06 mid-trigger restart without the remembered background"
+			}
+		case 'x':
+			if !vopen {
+				continue
+			}
+			tr.StopRecording()
+			vopen = false
+			if base.open {
+				what = "C06 stop not forwarded"
+			}
+		case 't':
+			clk.now = clk.now.Add(time.Second)
+			elapsed += 1
+		case 'T':
+			clk.now = clk.now.Add(10 * time.Second)
+			elapsed += 10
+		case 'f':
+			base.failStart = !base.failStart
+		}
+		if what == "" && base.viol != "" {
+			what = "C06 wrapped recorder saw: " + base.viol
+		}
+		// C05: frames reaching storage <= bucket + refill earned (+2 frames of tick quantisation, 1% rate margin)
+		bound := float64(bucketSecs*fps) + elapsed*float64(minSecs*fps)/float64(refillSecs)*1.01 + 2
+		if what == "" && float64(base.writes) > bound {
+			what = fmt.Sprintf("C05 %d frames reached storage in %.0f s, bound %.2f", base.writes, elapsed, bound)
+		}
+		if what != "" {
+			return fmt.Sprintf("%s; bucket=%ds min-clip=%d frames refill=%d frames/%ds fps=%d; ops=%q (op %d) [s=start w=write x=stop t=+1s T=+10s f=toggle failing base start]", what, bucketSecs, minSecs*fps, minSecs*fps, refillSecs, fps, string(seq[:k+1]), k+1)
+		}
+	}
+	return ""
+}
+
 func TestReplayThrottle(t *testing.T) {
-	const bucketSecs, minSecs, refillSecs, fps = 2, 1, 6, 2 // capacity 4 frames, min clip 2 frames, 2 frames per 6 s
+	for _, sc := range []string{"swwwwwTfwfww", "swwwwwTfwwfTww", "sfwwTfswww", "swwwwwwTTwwwwwwxTTswwwww", "swwxswwxswwxswwxswwTswww", "swwwwwTTTTTTwwwwwwwwwwwwww"} {
+		if v := runThrottleSeq([]byte(sc)); v != "" {
+			fmt.Println("REPLAY-VIOLATION " + v)
+			t.Fatal("violation reproduced on the real code")
+		}
+	}
 	ops := []byte("swxtTf")
 	deadline := time.Now().Add(20 * time.Second)
 	for depth := 1; depth <= 9; depth++ {
@@ -88,99 +192,9 @@ func TestReplayThrottle(t *testing.T) {
 			if time.Now().After(deadline) {
 				return false
 			}
-			base, lis, clk := &thBase{}, &thListener{}, &thClock{now: time.Unix(1000, 0)}
-			conf := &config.ThermalThrottler{Activate: true, BucketSize: bucketSecs * time.Second, MinRefill: refillSecs * time.Second}
-			tr := NewThrottledRecorderWithClock(base, conf, minSecs, lis, clk, thCam{})
-			bg := cptvframe.NewFrame(thCam{})
-			vopen := false // what the client (motion processor) believes
-			elapsed := 0.0
-			for k, o := range seq {
-				evBefore, filesBefore, writesBefore, wasOpen := lis.events, len(base.files), base.writes, base.open
-				what := ""
-				switch o {
-				case 's':
-					if vopen {
-						continue // the client never starts twice
-					}
-					err := tr.StartRecording(bg, 7)
-					if err == nil {
-						vopen = true
-					}
-					if base.open && len(base.files) == filesBefore+1 && base.bgs[len(base.bgs)-1] != bg {
-						what = "C06 start forwarded with a different background"
-					}
-					if !base.open && !base.failStart && err == nil && lis.events != evBefore+1 {
-						what = "C06 suppressed start without exactly one throttled event"
-					}
-					if base.open && lis.events != evBefore {
-						what = "C06 throttled event although the start was forwarded"
-					}
-				case 'w':
-					if !vopen {
-						continue
-					}
-					f := cptvframe.NewFrame(thCam{})
-					tr.WriteFrame(f)
-					if base.writes == writesBefore+1 {
-						cur := base.files[len(base.files)-1]
-						if cur[len(cur)-1] != f {
-							what = "C06 a different frame was forwarded"
-						}
-						if lis.events != evBefore {
-							what = "C06 throttled event although the frame was forwarded"
-						}
-					} else if wasOpen {
-						// cut
-						if base.open {
-							what = "C06 frame dropped but the file was left open"
-						}
-						if lis.events != evBefore+1 {
-							what = fmt.Sprintf("C06 cut produced %d throttled events, expected exactly 1", lis.events-evBefore)
-						}
-						if n := len(base.files[len(base.files)-1]); n < minSecs*fps {
-							what = fmt.Sprintf("C06 throttle-cut file holds %d frames, fewer than the minimum clip of %d", n, minSecs*fps)
-						}
-					} else {
-						if lis.events != evBefore {
-							what = "C06 throttled event for a dropped frame while no file is open"
-						}
-						if len(base.files) != filesBefore && base.writes == writesBefore && !base.failStart {
-							what = "C06 file restarted without writing the frame"
-						}
-					}
-					if len(base.files) == filesBefore+1 && base.bgs[len(base.bgs)-1] != bg {
-						what = "C06 mid-trigger restart without the remembered background"
-					}
-				case 'x':
-					if !vopen {
-						continue
-					}
-					tr.StopRecording()
-					vopen = false
-					if base.open {
-						what = "C06 stop not forwarded"
-					}
-				case 't':
-					clk.now = clk.now.Add(time.Second)
-					elapsed += 1
-				case 'T':
-					clk.now = clk.now.Add(10 * time.Second)
-					elapsed += 10
-				case 'f':
-					base.failStart = !base.failStart
-				}
-				if what == "" && base.viol != "" {
-					what = "C06 wrapped recorder saw: " + base.viol
-				}
-				// C05: frames reaching storage <= bucket + refill earned (+2 frames of tick quantisation, 1% rate margin)
-				bound := float64(bucketSecs*fps) + elapsed*float64(minSecs*fps)/float64(refillSecs)*1.01 + 2
-				if what == "" && float64(base.writes) > bound {
-					what = fmt.Sprintf("C05 %d frames reached storage in %.0f s, bound %.2f", base.writes, elapsed, bound)
-				}
-				if what != "" {
-					fmt.Printf("REPLAY-VIOLATION %s; bucket=%ds min-clip=%d frames refill=%d frames/%ds fps=2; ops=%q (op %d) [s=start w=write x=stop t=+1s T=+10s f=toggle failing base start]\n", what, bucketSecs, minSecs*fps, minSecs*fps, refillSecs, string(seq[:k+1]), k+1)
-					return true
-				}
+			if v := runThrottleSeq(seq); v != "" {
+				fmt.Println("REPLAY-VIOLATION " + v)
+				return true
 			}
 			return false
 		}
